@@ -13,10 +13,10 @@ Definition n_e : name := [101; 46; 102; 102].  (* "e.ff" *)
 Lemma dir_sorted_nil' : dir_sorted [].
 Proof. constructor. Qed.
 
-Lemma replay_reachable : forall ops s h,
-  replay match_ff 4096 0 ops (init []) 0 = inl (s, h) -> reachable match_ff 4096 s.
+Lemma replay_reachable : forall (ops : list rop) s h,
+  replay match_ff 4096 0 ops None (init []) 0 = inl (s, h) -> reachable match_ff 4096 s.
 Proof.
-  intros ops s h H. destruct (accept_sound_lemma match_ff 4096 _ _ _ _ _ _ H) as (evs & Hr & _).
+  intros ops s h H. destruct (accept_sound_lemma match_ff 4096 _ _ _ _ _ _ _ H) as (evs & Hr & _).
   exists [], evs. split; [apply dir_sorted_nil'|exact Hr].
 Qed.
 
@@ -31,7 +31,7 @@ Definition ex_ops : list event :=
    EConsTake; EConsumed 0; EConsTake; EDestroy; ELeftover 0 ws_ok; EConsFinish].
 
 Definition ex_final : option state :=
-  match replay match_ff 4096 0 ex_ops (init []) 0 with inl (s, _) => Some s | inr _ => None end.
+  match replay match_ff 4096 0 (map ROp ex_ops) None (init []) 0 with inl (s, _) => Some s | inr _ => None end.
 
 Lemma ex_conservation :
   exists s, ex_final = Some s /\ reachable match_ff 4096 s /\ settled s /\
@@ -39,7 +39,7 @@ Lemma ex_conservation :
     st_dir s = [(n_b, EFile [4; 5; 6; 7; 8]); (n_c, EFile [9; 9; 9; 9; 9; 9])] /\
     map c_id (taken (st_gh s)) = [n_a; n_b].
 Proof.
-  destruct (replay match_ff 4096 0 ex_ops (init []) 0) as [[s h]|i] eqn:E.
+  destruct (replay match_ff 4096 0 (map ROp ex_ops) None (init []) 0) as [[s h]|i] eqn:E.
   - exists s. split; [unfold ex_final; rewrite E; reflexivity|]. split; [eapply replay_reachable; exact E|].
     vm_compute in E. inversion E; subst s h. vm_compute. repeat split; reflexivity.
   - vm_compute in E. discriminate.
@@ -66,7 +66,7 @@ Definition crash_ops : list event :=
    ERestart 4 1 1000%Z true; ERegister; EConsTake; EConsumed 0].
 
 Lemma ex_crash_mid_write :
-  exists s h, replay match_ff 4096 0 crash_ops (init []) 0 = inl (s, h) /\
+  exists s h, replay match_ff 4096 0 (map ROp crash_ops) None (init []) 0 = inl (s, h) /\
     dir_get (st_dir s) n_b = None /\ dir_get (st_dir s) (tmp_name n_b) = Some (EFile [4; 5]) /\
     map (fun c => (c_id c, c_data c)) (g_offered (st_gh s)) = [(n_a, Some [1; 2; 3])] /\
     st_queue s = [] /\ st_fpc s = FRecv.
@@ -79,7 +79,7 @@ Definition short_ops : list event :=
    EAccept n_c [9] ws_ok; EConsTake; EConsumed 0; EConsTake; EConsumed 0].
 
 Lemma ex_short_write :
-  exists s h, replay match_ff 4096 0 short_ops (init []) 0 = inl (s, h) /\
+  exists s h, replay match_ff 4096 0 (map ROp short_ops) None (init []) 0 = inl (s, h) /\
     g_dropped (st_gh s) = [n_b] /\ m_dropped (st_met s) = 1%Z /\ m_ioerr (st_met s) = 1%Z /\
     map (fun c => (c_id c, c_data c)) (taken (st_gh s)) = [(n_a, Some [1; 2; 3]); (n_c, Some [9])] /\
     dir_get (st_dir s) n_b = None /\ dir_get (st_dir s) (tmp_name n_b) = None.
@@ -93,7 +93,7 @@ Definition damaged_ops : list event :=
    ERestart 8 2 1000%Z true; ERegister; EConsTake; EConsumed 0; EConsTake; EConsumed 0].
 
 Lemma ex_damaged_recovery :
-  exists s h, replay match_ff 4096 0 damaged_ops (init []) 0 = inl (s, h) /\
+  exists s h, replay match_ff 4096 0 (map ROp damaged_ops) None (init []) 0 = inl (s, h) /\
     map (fun c => (c_id c, c_data c)) (taken (st_gh s)) = [(n_a, Some [1; 2]); (n_d, Some [8])] /\
     g_dropped (st_gh s) = [n_b; n_c] /\ m_dropped (st_met s) = 2%Z /\ st_queue s = [].
 Proof. eexists. eexists. split; [vm_compute; reflexivity|]. vm_compute. repeat split; reflexivity. Qed.
@@ -103,7 +103,22 @@ Proof. eexists. eexists. split; [vm_compute; reflexivity|]. vm_compute. repeat s
 Definition match_all (n : name) : bool := match n with [] => false | _ => true end.
 
 Lemma ex_permissive_matcher :
-  exists s h, replay match_all 4096 0 crash_ops (init []) 0 = inl (s, h) /\
+  exists s h, replay match_all 4096 0 (map ROp crash_ops) None (init []) 0 = inl (s, h) /\
     map (fun c => (c_id c, c_data c)) (g_offered (st_gh s)) = [(n_a, Some [1; 2; 3]); (tmp_name n_b, Some [4; 5])] /\
     In (n_b, [4; 5; 6; 7; 8]) (st_ever s).
 Proof. eexists. eexists. split; [vm_compute; reflexivity|]. vm_compute. split; [reflexivity|]. right. left. reflexivity. Qed.
+
+(* ---- C03: the feeder held at its first load (FIFO), loaded chunks pile up in the queue, then shutdown ----
+   "0.ff" is the FIFO; chunks are accepted while the window is empty (all loaded) until the queue of 3 overflows;
+   after the release the FIFO chunk is dropped as empty; at Destroy the chunk in the feeder's hand, the queue and
+   the window are saved *)
+Definition n_0 : name := [48; 46; 102; 102].   (* "0.ff" *)
+Definition held_ops : list rop :=
+  [RHold n_0 3 2 1000%Z; ROp (EAccept n_a [1] ws_ok); ROp (EAccept n_b [2; 2] ws_ok); ROp (EAccept n_c [3; 3; 3] ws_ok);
+   ROp (EAccept n_d [4] ws_ok); RRelease; ROp EDestroy].
+
+Lemma ex_held_feeder :
+  exists s h, replay match_ff 4096 0 held_ops None (init []) 0 = inl (s, h) /\ st_fpc s = FStopped /\
+    g_dropped (st_gh s) = [n_d; n_0] /\ g_retained (st_gh s) = [n_c; n_a; n_b] /\
+    st_dir s = [(n_a, EFile [1]); (n_b, EFile [2; 2]); (n_c, EFile [3; 3; 3])].
+Proof. eexists. eexists. split; [vm_compute; reflexivity|]. vm_compute. repeat split; reflexivity. Qed.
